@@ -200,7 +200,7 @@ SPEC = {
         "and a `>` operator outside every expression-or-type position and either reads back with invented template arguments or "
         "prints a lone `>` directly before `(`; two class keys (operand form, and the comma-list form `f(a < b, c > (d))` whose "
         "argument count changes); a bare relational operator inside a template argument is never put into this class",
-        "random trees of the template-args stream are redrawn when their printed text nests `(` / `[` deeper than 6: the real "
+        "random trees of the template-args stream are redrawn when their printed text has a reading cost (deepest nesting of `(` / `[` + half the number of `<`) above 7: the real "
         "parser (and the model) re-read the inside of every `(` and `name <` twice, minutes per tree at a dozen levels; the "
         "systematic catalogue is not bounded",
         "an expression-or-type position is compared on what syntax can tell: `Either(expr, type)` equals `Expression(expr)` "
